@@ -33,6 +33,9 @@ pub fn units(tier: &str, _seed: u64) -> Vec<String> {
     v.push(unit(&[("shape", shapes[0]), ("n", "1"), ("fs", "SYM"), ("k", "sym"), ("a", "sym"), ("lm", "1")]));
     // load matching with two prioritised sources (what is left for the second one is eq. (11), not what was used)
     v.push(unit(&[("shape", shapes[3]), ("n", "1"), ("fs", "PEN"), ("k", "sym"), ("a", "sym"), ("lm", "1")]));
+    // a user file that spells out every factor (cogeneration supply and export, ambient-heat export)
+    v.push(unit(&[("shape", shapes[2]), ("n", "1"), ("fs", "FULL"), ("k", "sym"), ("a", "sym"), ("lm", "0")]));
+    v.push(unit(&[("shape", shapes[5]), ("n", "1"), ("fs", "FULL"), ("k", "sym"), ("a", "sym"), ("lm", "0")]));
     if tier == "thorough" {
         for s in shapes {
             v.push(unit(&[("shape", s), ("n", "2"), ("fs", "SYM"), ("k", "sym"), ("a", "sym"), ("lm", "1")]));
